@@ -4,4 +4,4 @@
 WT=/tmp/seedwt-$1
 git -C /repo worktree remove --force $WT 2>/dev/null
 rm -rf $WT
-git -C /repo worktree add -q --detach $WT HEAD && mkdir -p $WT/SEED_OUT && { [ -d /repo/target/debug ] && mkdir -p $WT/target && cp -r /repo/target/debug $WT/target/debug; } ; echo $WT
+git -C /repo worktree add -q --detach $WT HEAD && mkdir -p $WT/SEED_OUT && { [ -d /repo/target/debug ] && [ "$(du -s /repo/target/debug | cut -f1)" -lt 10000000 ] && mkdir -p $WT/target && cp -r /repo/target/debug $WT/target/debug; } ; echo $WT
